@@ -98,6 +98,8 @@ def ev(n, env, funcs=None):
         if txt in env:
             return env[txt]
         v = ev(n.value, env, funcs)
+        if isinstance(v, Table) and hasattr(v, 'attrs') and n.attr in v.attrs:
+            return v.attrs[n.attr]
         if isinstance(v, Obj):
             if n.attr in v.fields:
                 return v.fields[n.attr]
@@ -139,6 +141,8 @@ def ev(n, env, funcs=None):
             return {'int': int, 'float': float, 'bool': bool}[fname](args[0])
         if funcs and fname in funcs:
             return funcs[fname](*args)
+        if fname in env and callable(env[fname]):
+            return env[fname](*args)
         raise Unsupported('call %s' % ast.unparse(n))
     if isinstance(n, ast.Compare):
         l = ev(n.left, env, funcs)
